@@ -316,3 +316,17 @@ Proof.
   - destruct (assign_parts_total splits idx) as [ids ->]. cbn [bind]. left. eexists; reflexivity.
   - right. reflexivity.
 Qed.
+
+(* "each part is one interval of the curve": a point whose index lies between
+   the indices of two points of part j is itself in part j *)
+Corollary mono_pairs_intervals (l : list (N * N)) : mono_pairs l ->
+  forall a b c, In a l -> In b l -> In c l ->
+    (fst a <= fst c)%N -> (fst c <= fst b)%N -> snd a = snd b -> snd c = snd a.
+Proof.
+  intros H a b c Ha Hb Hc H1 H2 E.
+  destruct (H a c Ha Hc) as [L1 E1]. destruct (H c b Hc Hb) as [L2 E2].
+  destruct (N.eq_dec (fst a) (fst c)) as [Eq|Ne]; [symmetry; apply E1, Eq|].
+  destruct (N.eq_dec (fst c) (fst b)) as [Eq2|Ne2]; [rewrite (E2 Eq2); symmetry; exact E|].
+  assert ((snd a <= snd c)%N) by (apply L1; lia).
+  assert ((snd c <= snd b)%N) by (apply L2; lia). lia.
+Qed.
